@@ -39,6 +39,7 @@ func runC05(c *Check) {
 	c05Forwarders(c)
 	c05Wrapped(c)
 	c05Layout(c)
+	c05ProofsCache(c, "R5.4")
 }
 
 func c05Forwarders(c *Check) {
@@ -785,8 +786,16 @@ func runC08(c *Check) {
 		held := la.netAcquire[f]
 		isWrapper := f.Name() == "lock" && f.Signature.Recv() != nil
 		c.Ob("R8.4", fnName(f), len(held) == 0 || isWrapper, p.Pos(f.Pos()), fmt.Sprintf("locks still held at some return: %v (only the multi-lock helper may return holding locks)", held.keys()))
+		if !isWrapper {
+			la.checkReleasedAtReturns(c, "R8.4", f)
+		}
 	}
 	c.Floor("R8.4", "functions that take locks", nLockFns, 15)
+	// R8.6 no blocking wait under a lock: the accessor's close() waits for readers on a channel that
+	// removeRef closes under accessor.lock; waiting with that (or any store) lock held deadlocks until the timeout.
+	c.Rule("R8.6", "no channel wait, select or sleep while a store/cache lock is held")
+	nWait := la.checkNoBlockingUnderLock(c, "R8.6", nil)
+	c.Floor("R8.6", "blocking operations in the store packages", nWait, 1)
 	c08CloseOnce(c)
 }
 
